@@ -21,6 +21,7 @@ SOURCES = ['SoupVerif/Properties/C06.lean', 'SoupVerif/Lemmas/ParserProgress.lea
 SOURCES += ['SoupVerif/Generated/PySmallFn.lean', 'SoupVerif/Model/SmallFnDyn.lean', 'SoupVerif/Properties/C06GenCustom.lean']   # process_custom translated from the source
 SOURCES += ['SoupVerif/Generated/PyCombinators.lean', 'SoupVerif/Model/CombDyn.lean', 'SoupVerif/Properties/C06GenComb.lean']   # parse_combinator / parse_has_combinator translated from the source
 SOURCES += ['SoupVerif/Generated/PyPseudoOpen.lean', 'SoupVerif/Properties/C06GenPseudoOpen.lean']   # parse_pseudo_open translated from the source
+SOURCES += ['SoupVerif/Generated/PyPseudoCustom.lean', 'SoupVerif/Model/PseudoCustomProg.lean', 'SoupVerif/Properties/C06GenPseudoCustom.lean']   # parse_pseudo_class_custom translated from the source
 RULE = ('patterns: every string of length <= k over a 38-symbol alphabet of CSS-significant characters (exhaustive), random '
         'valid selectors of the whole grammar in random spellings, every kind of truncation and single-character mutation of '
         'them, escapes at the code-point boundaries (0, D800, DFFF, 10FFFF, 110000, FFFFFF, with and without terminator), NUL, '
